@@ -784,7 +784,10 @@ def run_trading(rnd, S, cfgk, intensity=1.0, script=None, analyser=False, ids=No
                         call.update(api="finance", args=(3000.0,))
                         api.finance(3000.0)
                     elif "STOCK" in context.portfolio.accounts and context.portfolio.accounts["STOCK"].cash_liabilities > 0 and context.portfolio.accounts["STOCK"].cash > 1000:
-                        rp = min(1000.0, context.portfolio.accounts["STOCK"].cash_liabilities)
+                        liab_ = context.portfolio.accounts["STOCK"].cash_liabilities
+                        rp = min(1000.0, liab_)
+                        if context.portfolio.accounts["STOCK"].cash > liab_ + 600 and srnd.random() < 0.4:
+                            rp = round(liab_ + srnd.choice([0.01, 100.0, 500.0]), 2)      # more than is owed: only what is owed may leave the account
                         call.update(api="repay", args=(rp,))
                         api.repay(rp)
             except StopIteration:
